@@ -11,10 +11,14 @@ use serde_json::{Value, json};
 
 /// import paths: standard library, nested, last segment that is not an identifier, version suffix,
 /// a last segment shared with another path, a last segment spelled like the runtime's own import
-const PATHS: [&str; 8] = ["time", "strings", "math/rand", "crypto/rand", "gopkg.in/yaml.v3", "github.com/a-b/c-d", "example.com/x/v2", "example.com/own/fmt"];
+const PATHS: [&str; 11] = ["time", "strings", "math/rand", "crypto/rand", "gopkg.in/yaml.v3", "github.com/a-b/c-d", "example.com/x/v2", "example.com/own/fmt", "x/a/b", "x_a/b", "lib/go"];
 
 /// what the program declares for the package and how it uses it
-const USES: [&str; 8] = ["fn-called", "fn-called-in-closure", "fn-called-discarded", "fn-only-in-unused-fn", "fn-declared-never-called", "type-and-fn-called", "type-declared-only", "type-in-signature-only"];
+const USES: [&str; 11] = [
+    "fn-called", "fn-called-in-closure", "fn-called-discarded", "fn-only-in-unused-fn", "fn-declared-never-called", "type-and-fn-called", "type-declared-only", "type-in-signature-only",
+    // a foreign function declared `-> unit` is a Go function without a result
+    "unit-fn-as-statement", "unit-fn-result-bound", "unit-fn-as-function-result",
+];
 
 fn program(paths: &[&str], usage: &str, placement: &str) -> String {
     // in a library: the declarations live in package Lib, main names them through the package
@@ -40,6 +44,18 @@ fn program(paths: &[&str], usage: &str, placement: &str) -> String {
             }
             "fn-declared-never-called" => {
                 decls.push_str(&format!("extern \"go\" \"{}\" \"Do\" do{}(n: int32) -> int32\n", p, k));
+            }
+            "unit-fn-as-statement" => {
+                decls.push_str(&format!("extern \"go\" \"{}\" \"Do\" do{}() -> unit\n", p, k));
+                main.push_str(&format!("    {}do{}();\n", q, k));
+            }
+            "unit-fn-result-bound" => {
+                decls.push_str(&format!("extern \"go\" \"{}\" \"Do\" do{}() -> unit\n", p, k));
+                main.push_str(&format!("    let u{k} = {q}do{k}();\n    string_println(unit_to_string(u{k}));\n", k = k, q = q));
+            }
+            "unit-fn-as-function-result" => {
+                decls.push_str(&format!("extern \"go\" \"{p}\" \"Do\" do{k}() -> unit\nfn wrap{k}() -> unit {{ do{k}() }}\n", p = p, k = k));
+                main.push_str(&format!("    {}wrap{}();\n", q, k));
             }
             "type-and-fn-called" => {
                 decls.push_str(&format!("extern type Th{k}\nextern \"go\" \"{}\" \"Make\" mk{k}(n: int32) -> Th{k}\nextern \"go\" \"{}\" \"Show\" show{k}(t: Th{k}) -> string\n", p, p, k = k));
@@ -70,7 +86,7 @@ impl Family for Externs {
         &["C02", "C04"]
     }
     fn rule(&self) -> &'static str {
-        "extern declarations: 8 import paths (standard library, nested, a last segment that is not an identifier, a version suffix, two paths with one last segment, a last segment spelled like the runtime's own import) taken one at a time and in all pairs x 8 usages x 2 placements of the declarations (the main package; a library package that main imports) (function called / called in a closure / called and discarded / called only from an unused function / never called; type with constructor and consumer called / type declared only / type used in a signature only); oracle: the emitted Go passes the static checker with foreign members opaque (every package the text names is imported under that name, no import unused, no two imports bind one name); the programs are not executed (the Go model has no foreign packages). non-trivial = programs with two packages or a non-identifier last segment; distinct = distinct source text"
+        "extern declarations: 11 import paths (standard library, nested, a last segment that is not an identifier, a version suffix, two paths with one last segment, a last segment spelled like the runtime's own import, two paths that differ in '/' against '_', a last segment that is a Go keyword) taken one at a time and in all pairs x 11 usages x 2 placements of the declarations (the main package; a library package that main imports) (function called / called in a closure / called and discarded / called only from an unused function / never called; type with constructor and consumer called / type declared only / type used in a signature only; a function declared '-> unit' called as a statement / with its result bound / as the result of a goml function: Go functions without a result can only be statements); oracle: the emitted Go passes the static checker with foreign members opaque (every package the text names is imported under that name, no import unused, no two imports bind one name); the programs are not executed (the Go model has no foreign packages). non-trivial = programs with two packages or a non-identifier last segment; distinct = distinct source text"
     }
     fn cases(&self, _tier: Tier) -> Box<dyn Iterator<Item = Value> + '_> {
         let mut v = Vec::new();
@@ -118,6 +134,25 @@ impl Family for Externs {
         match crate::gosem::analyse(&go) {
             GoVerdict::Ok(p) => {
                 rep.tag("go:ok");
+                // a Go function without a result can only be called as a statement (the model treats
+                // foreign functions as opaque, so this is judged on the text: one statement per line)
+                if usage.starts_with("unit-fn") {
+                    for (ln, l) in go.lines().enumerate() {
+                        if let Some(pos) = l.find(".Do(") {
+                            let before = l[..pos].trim_start();
+                            if before.contains(' ') || before.contains('=') || before.contains('(') {
+                                rep.findings.push(Finding {
+                                    property: "C02",
+                                    class: "go.no-value-used-as-value".into(),
+                                    site: format!("{};stmt={}", site, normalise_msg(l.trim())),
+                                    detail: format!("line {}: `{}`: a foreign function declared `-> unit` has no result in Go", ln + 1, l.trim()),
+                                    replay: json!({"kind": "text", "text": text, "oracle": "go-static", "go_text": go}),
+                                });
+                                break;
+                            }
+                        }
+                    }
+                }
                 for (r, _) in p.rules_evaluated.iter() {
                     rep.tag(format!("go-rule-evaluated:{}", r));
                 }
